@@ -147,3 +147,26 @@ Theorem C09_spinfree_propagation_conserves_S2 :
           = coeff R rO radd (vscale R rmul lam (lincomb R rmul ropp (restricted_poly R norb h1 h2) cs v)) d.
 Proof. exact spinfree_propagation_conserves_S2. Qed.
 Print Assumptions C09_spinfree_propagation_conserves_S2.
+
+(* the phase of the time-reversal operator (TrevThm.v).  T is the antilinear map with T a†_{k alpha} T^-1 = a†_{k beta},
+   T a†_{k beta} T^-1 = - a†_{k alpha}, T|0> = |0>; on a determinant it is (-1)^{n_beta} times the product of the
+   exchanged creators applied to the vacuum (Reorder.build with the block exchange tau).  For every orbital count and
+   every pair of strings this is (-1)^{n_beta (n_alpha + 1)} |B, A> - the phase of TimeReversalOp.contract and of the
+   model oracle Model.m_trev - and T^2 = (-1)^N. *)
+From FQE Require Import Bits Reorder TrevThm.
+Theorem C09_time_reversal_phase : forall n (x y : det), length x = n -> length y = n ->
+  trev_det n (x ++ y) = Some (Nat.odd (cnt_true y * (cnt_true x + 1)), y ++ x).
+Proof. exact trev_det_phase. Qed.
+Print Assumptions C09_time_reversal_phase.
+
+Theorem C09_time_reversal_phase_of_model_layout : forall norb (a b : N),
+  (a < 2 ^ N.of_nat norb)%N -> (b < 2 ^ N.of_nat norb)%N ->
+  trev_det norb (rev (bits norb a) ++ rev (bits norb b))
+  = Some (Nat.odd (popcount b * (popcount a + 1)), rev (bits norb b) ++ rev (bits norb a)).
+Proof. exact trev_det_of. Qed.
+Print Assumptions C09_time_reversal_phase_of_model_layout.
+
+Theorem C09_time_reversal_squares_to_parity : forall n (x y : det), length x = n -> length y = n ->
+  sbind (trev_det n) (trev_det n (x ++ y)) = Some (Nat.odd (cnt_true x + cnt_true y), x ++ y).
+Proof. exact trev_det_twice. Qed.
+Print Assumptions C09_time_reversal_squares_to_parity.
